@@ -239,6 +239,19 @@ async def eval_real(expr, asg, fc=None, hint_keys=()):
     from ahbicht.expressions.requirement_constraint_expression_evaluation import requirement_constraint_evaluation
     ahb.set_cer_values(rc={conc(k): v for k, v in asg.items()}, fc={conc(k): v for k, v in (fc if fc is not None else {k: True for k in FC_KEYS_POOL}).items()},
                        hints={conc(k): ahb.hint_text(k) for k in HINT_KEYS_POOL}, inplace=True)
+    if isinstance(expr, str) and hash(expr) % 8 == 1 and asg:
+        # fault history (one expression in eight): the same task evaluated the expression before under ANOTHER assignment together with a key nobody can
+        # evaluate - that evaluation fails (not judged); nothing of it may be left behind for the judged one
+        flip = {"F": "U", "U": "K", "K": "F"}
+        ahb.set_cer_values(rc={conc(k): flip[v] for k, v in asg.items()}, fc={conc(k): not v for k, v in (fc if fc is not None else {k: True for k in FC_KEYS_POOL}).items()},
+                           hints={conc(k): ahb.hint_text(k) for k in HINT_KEYS_POOL}, inplace=True)
+        for failing in (f"({expr}) U [488]", f"({expr}) U [988]"):
+            try:
+                await requirement_constraint_evaluation(failing)
+            except BaseException:  # noqa: BLE001 - not judged
+                pass
+        ahb.set_cer_values(rc={conc(k): v for k, v in asg.items()}, fc={conc(k): v for k, v in (fc if fc is not None else {k: True for k in FC_KEYS_POOL}).items()},
+                           hints={conc(k): ahb.hint_text(k) for k in HINT_KEYS_POOL}, inplace=True)
     if isinstance(expr, str) and hash(expr) % 8 == 0:
         # fault history (one expression in eight): refused near misses of the same string were handled before
         from common import near_misses
@@ -297,6 +310,13 @@ def tree_entry_point(expr, asg):
 async def fc_eval_real(expr, b):
     import ahb
     from ahbicht.expressions.format_constraint_expression_evaluation import format_constraint_evaluation
+    if isinstance(expr, str) and hash((expr, tuple(sorted(b.items())))) % 6 == 0:
+        # fault history: the same task evaluated the expression before under the opposite verdicts together with a key nobody can evaluate (fails, not judged)
+        ahb.set_cer_values(rc={}, fc={conc(k): not v for k, v in b.items()}, hints={})
+        try:
+            await format_constraint_evaluation(f"({expr}) U [988]")
+        except BaseException:  # noqa: BLE001 - not judged
+            pass
     ahb.set_cer_values(rc={}, fc={conc(k): v for k, v in b.items()}, hints={})
     r = await format_constraint_evaluation(expr)
     return r.format_constraints_fulfilled, r.error_message
